@@ -38,6 +38,7 @@ type Ctx struct {
 	probes  []string // and tasks have no happens-before edges between them by design)
 	cases   []string
 	known   []string
+	digest  uint64
 	sample  []string
 	Replay  bool
 	SimTime int64 // virtual nanoseconds covered (back end B) — steps are reported separately
@@ -78,6 +79,11 @@ func (c *Ctx) Probe(name string) { c.probes = append(c.probes, name) }
 //
 //go:norace
 func (c *Ctx) Case(key string) { c.cases = append(c.cases, key) }
+
+// Digest records a 64-bit digest of what this run produced (compared across processes).
+//
+//go:norace
+func (c *Ctx) Digest(d uint64) { c.digest = d }
 
 // Sample keeps a human-readable description of what this run did (first few runs are
 // written to the evidence file).
@@ -141,6 +147,7 @@ type Result struct {
 	AllHash   string            `json:"all_hash,omitempty"` // hash over all runs' schedule hashes in order (determinism protocol)
 	Deadlocks int               `json:"deadlocks"`
 	Known     map[string]int    `json:"known,omitempty"`
+	OutHash   string            `json:"out_hash,omitempty"` // digest over all runs' output digests, in order
 }
 
 var knownSigs []string
@@ -197,6 +204,7 @@ func Main(t *testing.T, scens map[string]Scenario) {
 	scheds := map[uint64]struct{}{}
 	cases := map[uint64]struct{}{}
 	all := fnv.New64a()
+	outh := fnv.New64a()
 	progress := os.Getenv("VW_OUT") + ".progress"
 
 	runOne := func(run int, c *kern.Choices, replay bool) *Ctx {
@@ -230,6 +238,7 @@ func Main(t *testing.T, scens map[string]Scenario) {
 				res.Deadlocks++
 			}
 		}
+		outh.Write([]byte(fmt.Sprintf("%016x", ctx.digest)))
 		res.SimTimeNs += ctx.SimTime
 		res.Draws += int64(len(ctx.C.Log))
 		for _, k := range ctx.faults {
@@ -320,6 +329,7 @@ func Main(t *testing.T, scens map[string]Scenario) {
 	}
 	sort.Slice(res.Cases, func(i, j int) bool { return res.Cases[i] < res.Cases[j] })
 	res.AllHash = fmt.Sprintf("%016x", all.Sum64())
+	res.OutHash = fmt.Sprintf("%016x", outh.Sum64())
 	res.WallS = time.Since(start).Seconds()
 	if out := os.Getenv("VW_OUT"); out != "" {
 		data, _ := json.Marshal(res)
